@@ -127,6 +127,10 @@ func (c *ExecuteCtx) AdjustChunkCache(chooseIdxes []int) {
 		}
 		c.FieldChunkCaches[k] = nv
 	}
+	// The per-chunk results were computed for the chunks the scan filtered;
+	// the caller goes on with a different chunk (the chosen rows), which may
+	// start with the same key, so they must not be found again.
+	clear(c.FieldChunkKeyCaches)
 }
 
 type FinalPlan interface {
